@@ -261,3 +261,41 @@ pub enum CbB {
     #[regex("[é€𝔸α-ω]")]
     NonAscii,
 }
+
+// ---- pair 4: str, look-around assertions and enum-level skips (partial mode matters most here) -----
+
+#[derive(Logos, Debug, Clone, PartialEq)]
+#[logos(extras = ExA)]
+#[logos(skip(r"[ \t]+", priority = 2))]
+pub enum AnchA {
+    #[regex(r"x+$", priority = 4)]
+    XEnd,
+    #[regex("[xyz]", priority = 1)]
+    One,
+    #[regex(r"if(?-u:\b)", priority = 6)]
+    If,
+    #[regex("[a-w_]+", |lex| { lex.extras.count += 1; lex.slice().len() }, priority = 2)]
+    Ident(usize),
+    #[token("\n")]
+    Nl,
+    #[token("#", bump_request)]
+    Hash,
+}
+
+#[derive(Logos, Debug, Clone, PartialEq)]
+#[logos(extras = ExB)]
+#[logos(skip(r"#[ -~]*", priority = 3))]
+pub enum AnchB {
+    #[regex(r"(?m)y+$", priority = 4)]
+    YEol,
+    #[regex("[a-z]+", priority = 2)]
+    Word,
+    #[regex("[0-9]+", |lex| { lex.extras.count += 10; }, priority = 2)]
+    Num,
+    #[token("\n")]
+    Nl,
+    #[token(" ")]
+    Space,
+    #[regex(r"end\z", priority = 8)]
+    EndZ,
+}
